@@ -103,7 +103,10 @@ class PKI:
             issuer_name, issuer_key = nm, k
         self.issuer_name, self.issuer_key = issuer_name, issuer_key
 
+    extra_leaf_exts = ()          # (oid text, DER value) pairs put into every leaf as unrecognised, non-critical extensions
+
     def leaf(self, subject, pubkey, nb=T0 - DAY, na=T0 + 365 * DAY, exts=(), ca=False, signer_key=None):
+        exts = list(exts) + [(x509.UnrecognizedExtension(ObjectIdentifier(o), v), False) for o, v in self.extra_leaf_exts]
         return make_cert(subject, self.issuer_name, pubkey, signer_key or self.issuer_key, nb=nb, na=na, ca=ca, exts=exts)
 
     def chain_der(self, leaf, order="normal", with_root=False, extra=()):
@@ -291,6 +294,7 @@ def build(s):
     ad = authsim.authdata(s.sign_rp_id or s.rp_id, s.flags, s.count, aaguid=aaguid, cred_id=s.cred_id, cose_bytes=cose_bytes, ext=s.ext)
     cdh = hashlib.sha256(cdj).digest()
     pki = PKI(tag=s.pki_tag, n_inter=s.n_inter, **k.get("pki_kw", {}))
+    pki.extra_leaf_exts = tuple(k.get("leaf_extra_exts", ()))
     builtin = {"apple": [], "android-key": [], "android-safetynet": []}
     stmt = {}
     fmt = s.fmt
@@ -393,7 +397,8 @@ def build(s):
         builtin["android-key"] = [pki.root_pem()]
     elif fmt == "android-safetynet":
         sn_key = ec_key("safetynet_ec_leaf") if k.get("sn_ec_leaf") else rsa_key("safetynet_leaf")
-        leaf = pki.leaf(name(k.get("sn_cn", "attest.android.com")), sn_key.public_key(), nb=leaf_nb, na=leaf_na, signer_key=k.get("leaf_signer"))
+        sn_exts = [(x509.SubjectAlternativeName([x509.DNSName(d) for d in k["sn_san"]]), False)] if k.get("sn_san") else []
+        leaf = pki.leaf(name(k.get("sn_cn", "attest.android.com")), sn_key.public_key(), nb=leaf_nb, na=leaf_na, signer_key=k.get("leaf_signer"), exts=sn_exts)
         x5c = chain(leaf)
         header = {"alg": k.get("sn_alg", "RS256"), "x5c": [base64.b64encode(c).decode() for c in x5c]}
         nonce = base64.b64encode(hashlib.sha256(signed_ad + signed_cdh).digest()).decode()
